@@ -21,7 +21,45 @@ def xor(a, b):
     return bytes(x ^ y for x, y in zip(a, b))
 
 
+def volume_case(rng, alg, bs, ks, mod, blocks_total):
+    """one key used for many calls whose total passes `blocks_total` cipher blocks (2^20 + a little: beyond any per-key usage counter
+    an implementation might keep); every call is judged against the `cryptography` package directly (the Lean reference ciphers
+    would take minutes for this volume), so the case has no driver lines"""
+    from cryptography.hazmat.primitives.ciphers import Cipher, algorithms, modes
+    c = Case(f"{alg}:volume-under-one-key", {"key": ks, "blocks": blocks_total})
+    key = rb(rng, ks)
+    ref_alg = algorithms.AES(key) if alg == "aes" else algorithms.TripleDES(key if ks == 24 else (key + key[:8] if ks == 16 else key * 3))
+    chunk = 1 << 16                      # blocks per call
+    done, calls = 0, 0
+    data = rb(rng, 64) * (chunk * bs // 64)
+    iv = rb(rng, bs)
+    while done <= blocks_total:
+        which = calls % 4
+        fn = [f"{mod}.encrypt_{alg}_ecb", f"{mod}.encrypt_{alg}_cbc", f"{mod}.decrypt_{alg}_ecb", f"{mod}.decrypt_{alg}_cbc"][which]
+        args = (key, data) if which % 2 == 0 else (key, iv, data)
+        r = core.call_impl(fn, args)
+        mode = modes.ECB() if which % 2 == 0 else modes.CBC(iv)
+        ctx = Cipher(ref_alg, mode)
+        op = ctx.encryptor() if which < 2 else ctx.decryptor()
+        want = op.update(data) + op.finalize()
+        if not r.ok:
+            c.fail(f"{fn} raised {r.err} after {done} blocks under this key ({r.exc!r})"[:300])
+            break
+        if r.value != want:
+            c.fail(f"{fn} differs from the reference after {done} blocks under this key")
+            break
+        done += chunk
+        calls += 1
+    c.desc["calls"] = calls
+    c.key = f"volume-{alg}-{ks}"
+    return c
+
+
 def generate(rng, tier, seed):
+    import warnings
+    warnings.simplefilter("ignore")
+    yield volume_case(rng, "tdes", 8, rng.choice((8, 16, 24)), "des", (1 << 20) + (1 << 17))
+    yield volume_case(rng, "aes", 16, rng.choice((16, 24, 32)), "aes", (1 << 20) + (1 << 17))
     reps = 6 if tier == "quick" else 40
     for alg, (bs, ksizes, mod) in ALGS.items():
         for ks in ksizes:
